@@ -146,7 +146,7 @@ def _worker_retry(args):
         if k not in want:
             continue
         try:
-            r = solve.decide(ob, res.str_axioms, 240000, True)
+            r = solve.decide(ob, res.str_axioms, 90000, True)
             out[k] = {"status": r[1], "backend": r[2], "seconds": r[3], "model": r[4], "tried": r[5]}
         except Exception as e:
             out[k] = {"status": "error", "error": str(e)}
